@@ -346,6 +346,10 @@ func (s *state) visitPrint(node *ast.PrintNode) {
 		switch dir.Name {
 		case "id", "noAutoescape":
 			// no implementation, they just serve as a marker to cancel autoescape.
+		case "changeNewlineToBr", "insertWordBreaks":
+			// these two produce HTML from text: the text is escaped first, as in soyhtml
+			directives = append(directives, &ast.PrintDirectiveNode{0, "escapeHtml", nil})
+			fallthrough
 		default:
 			directives = append(directives, dir)
 			if impt := s.options.Formatter.Directive(directive); impt != "" {
